@@ -562,8 +562,8 @@ func TestC01(t *testing.T) {
 	r.Assume("lib.Pipe is a lossless ordered byte pipe whose Read returns 1..k bytes")
 
 	m := &monitor{r: r, frames: map[string]int{}, settings: map[string]int{}, chunk: map[int]int{}}
-	nSeq := r.N(400, 20000)
-	nBig := r.N(2, 200)
+	nSeq := r.N(1200, 60000)
+	nBig := r.N(4, 600)
 	maxSize := 1 << 16
 
 	workers := runtime.GOMAXPROCS(0)
